@@ -830,6 +830,10 @@ def _serve_socket_threaded(
             with state_lock:
                 conn_count += 1
                 _cancel_timer_locked()
+                # A client that arrives after the idle timer fired but before
+                # the accept loop noticed revives the worker: the idle period
+                # starts over when this connection ends.
+                shutdown_requested = False
             t = threading.Thread(
                 target=_handle,
                 args=(conn,),
